@@ -490,7 +490,17 @@ def mirror_covariance_matrix(cov_mat):
         n_subaps (ndarray): Number of sub-aperture in each WFS
     """
 
-    return numpy.bitwise_or(cov_mat.view("int32"), cov_mat.T.view("int32")).view("float32")
+    # Take every element above the diagonal from its mirror image below the
+    # diagonal (from above where nothing was filled in below). OR-ing the bit
+    # patterns of the matrix and its transpose is only a copy where one of the
+    # two is exactly +0: in the blocks of a WFS with itself both are filled, and
+    # rounding residues of analytically zero elements turn into arbitrarily
+    # large numbers (3.3e-24 | -6.5e-17 = -0.031)
+    cov_mat = numpy.asarray(cov_mat)
+    below = numpy.tril(cov_mat, -1)
+    above = numpy.triu(cov_mat, 1)
+    above = numpy.where(below.T != 0, below.T, above)
+    return above + above.T + numpy.diag(numpy.diag(cov_mat))
 
 def create_tomographic_covariance_reconstructor(covariance_matrix, n_onaxis_subaps, svd_conditioning=0):
     """
